@@ -19,11 +19,12 @@ def load_grammar() -> str:
 
 
 class CommentFilter:
-    """Drop comments written where no statement can end: inside parentheses
-    (a ``states(...)`` / ``parameters(...)`` block or a header spread over several
-    lines, a parenthesised sub-expression) and directly after an operator, ``=`` or
-    ``,`` (an expression continued on the next line). Such a comment cannot annotate
-    an assignment, so it carries no meaning; the grammar only knows comments
+    """Drop comments and line breaks written where no statement can end: inside
+    parentheses (a ``states(...)`` / ``parameters(...)`` block or a header spread
+    over several lines, a parenthesised sub-expression or function call) and
+    directly after an operator, ``=`` or ``,`` (an expression continued on the next
+    line). A comment there cannot annotate an assignment and a line break there
+    cannot end one, so neither carries any meaning; the grammar only knows them
     between statements and at the end of an assignment."""
 
     always_accept = ("COMMENT_LINE",)
@@ -33,10 +34,10 @@ class CommentFilter:
         depth = 0
         previous = None
         for token in stream:
-            if token.type == "COMMENT_LINE":
+            if token.type in ("COMMENT_LINE", "NEWLINE"):
                 if depth > 0 or previous in self._open:
                     continue
-            elif token.type != "NEWLINE":
+            else:
                 previous = str(token)
                 if previous == "(":
                     depth += 1
